@@ -20,4 +20,22 @@ SPECS = [
          inputs=[("n_updates", "Z")], subst={"self._n_updates": "n_updates"}, outputs=[("n_updates", "Z")]),
     dict(name="td3_update_cond", file="stable_baselines3/td3/td3.py", qual="TD3.train", start=r"^if (not )?\(?self\._n_updates\b", end=None, kind="test",
          inputs=[("n_updates", "Z"), ("policy_delay", "Z")], subst={"self._n_updates": "n_updates", "self.policy_delay": "policy_delay"}),
+    # the coefficient used for the normalisation running statistics at the update instants (a copy: tau = 1.0)
+    dict(name="dqn_bn_tau", file="stable_baselines3/dqn/dqn.py", qual="DQN._on_step", start=r"^polyak_update\(self\.batch_norm_stats\b", end=None,
+         kind="subexpr", pick=r"\d+(\.\d*)?|self\.tau", ret="Q", inputs=[("tau", "Q")], subst={"self.tau": "tau"}),
+    dict(name="sac_bn_tau", file="stable_baselines3/sac/sac.py", qual="SAC.train", start=r"^polyak_update\(self\.batch_norm_stats\b", end=None,
+         kind="subexpr", pick=r"\d+(\.\d*)?|self\.tau", ret="Q", inputs=[("tau", "Q")], subst={"self.tau": "tau"}),
+    dict(name="td3_critic_bn_tau", file="stable_baselines3/td3/td3.py", qual="TD3.train", start=r"^polyak_update\(self\.critic_batch_norm_stats\b", end=None,
+         kind="subexpr", pick=r"\d+(\.\d*)?|self\.tau", ret="Q", inputs=[("tau", "Q")], subst={"self.tau": "tau"}),
+    dict(name="td3_actor_bn_tau", file="stable_baselines3/td3/td3.py", qual="TD3.train", start=r"^polyak_update\(self\.actor_batch_norm_stats\b", end=None,
+         kind="subexpr", pick=r"\d+(\.\d*)?|self\.tau", ret="Q", inputs=[("tau", "Q")], subst={"self.tau": "tau"}),
+    # the coefficient used for the parameters: the configured tau
+    dict(name="dqn_param_tau", file="stable_baselines3/dqn/dqn.py", qual="DQN._on_step", start=r"^polyak_update\(self\.q_net\.parameters", end=None,
+         kind="subexpr", pick=r"\d+(\.\d*)?|self\.tau", ret="Q", inputs=[("tau", "Q")], subst={"self.tau": "tau"}),
+    dict(name="sac_param_tau", file="stable_baselines3/sac/sac.py", qual="SAC.train", start=r"^polyak_update\(self\.critic\.parameters", end=None,
+         kind="subexpr", pick=r"\d+(\.\d*)?|self\.tau", ret="Q", inputs=[("tau", "Q")], subst={"self.tau": "tau"}),
+    dict(name="td3_critic_param_tau", file="stable_baselines3/td3/td3.py", qual="TD3.train", start=r"^polyak_update\(self\.critic\.parameters", end=None,
+         kind="subexpr", pick=r"\d+(\.\d*)?|self\.tau", ret="Q", inputs=[("tau", "Q")], subst={"self.tau": "tau"}),
+    dict(name="td3_actor_param_tau", file="stable_baselines3/td3/td3.py", qual="TD3.train", start=r"^polyak_update\(self\.actor\.parameters", end=None,
+         kind="subexpr", pick=r"\d+(\.\d*)?|self\.tau", ret="Q", inputs=[("tau", "Q")], subst={"self.tau": "tau"}),
 ]
